@@ -38,7 +38,7 @@ Skip == /\ l <= NEv
         /\ Ev.ev \in {"start", "net.dial", "tcp.accept", "client.open", "dh.start", "harness.note",
                      \* the data path of a session is the business of spec/ProxyRelay
                      "rs.conn", "dc.onmsg", "dc.onclose", "conn.write", "conn.write.counted", "conn.pcclose", "cl.end", "event.over",
-                     "client.send", "client.recv", "client.close", "client.abort", "client.vanish", "client.sawclose",
+                     "client.send", "client.recv", "client.close", "client.abort", "client.vanish", "client.sawclose", "client.stall", "client.resume",
                      "relay.send", "relay.recv", "relay.close"}
         /\ Step /\ UNCHANGED <<vars, pend>>
 
